@@ -18,6 +18,7 @@ CHECKS = {
  "C09": ("(data set with weights in {0,0.5,1,2}, hide subset, prune flags on both dimensions, none/plain/hidden subtotal) states on CAT, MR, MR x MR, CA pairings and strands: an element is absent iff hidden or (prune and empty) with emptiness decided from respondents' unweighted answers by the statement's bounds, visibility identical to the all-weights-1 run, subtotal rule, shape/is_empty/labels extents", "4/C09"),
  "C08": ("(data set, sort transform) states: every sortable MEASURE / MARGINAL / strand keyword enumerated from the library's enums x opposing element / opposing insertion / marginal / label / univariate types x directions x fixed lists x hidden elements, rows, columns and strands, with plain and difference subtotals, plus unresolvable keys; sort keys are read from the PUBLIC measure of an untransformed run; checks membership, subtotal-group position, fixed brackets, monotonicity with NaN last in payload order, fallback to the anchored payload order", "4/C08"),
  "C05": ("relation between two runs of the library: (data set, order x fixed lists with repeats/overlap x hide subset x prune flag on rows AND columns, insertions incl. a difference present) states on non-square CAT x CAT (weighted, squared weights, numeric), CAT x MR, MR x CAT, an x6-amplified table and strands; EVERY public output found by introspection (about 120 per slice) must equal the untransformed output re-indexed by the reported orders, position-valued outputs renumbered, scalars unchanged, no vector listed twice, extents = shape", "4/C05"),
+ "C10": ("for every (data set, mirrored transform config) state the tabulator emits A x B and B x A of the same respondents (CAT x CAT incl. numeric, CAT_DATE x CAT, CAT x MR / MR x CAT, MR x MR, CA both orientations); output pairs found by introspection (row_*<->column_*, rows_*<->columns_*, index lists, masks, orders) must be equal / transposed and direction-free outputs must be transposes", "4/C10"),
  "C01": ("every multiset of <=N respondents over each schema's answer-profile alphabet is tabulated into a server payload and the real Cube/partition outputs are compared cell by cell with a respondent-loop oracle; covers all type pairings, missing-category positions, 1-D/2-D/3-D, weighted, numeric and numeric-array responses", "4/C01"),
 }
 PENDING = {}
